@@ -113,6 +113,9 @@ pub fn seek_from(w: &Whence, o: &Off, len: u64, extremes: bool, bound: Option<u6
         11 => {
             if extremes {
                 i64::MAX
+            } else if o.delta as u8 % 16 == 7 {
+                // rarely a gap beyond 16 MiB (17 MiB + d)
+                l + (17 << 20) + d
             } else if o.delta % 4 == 3 {
                 // a gap of one or two MiB (write scripts are bounded by WRITE_SEEK_BOUND)
                 l + (1 << 20) * (1 + (o.delta as i64 & 4) / 4) + d
@@ -308,7 +311,7 @@ pub trait WriteSeek: Write + Seek {}
 impl<T: Write + Seek + ?Sized> WriteSeek for T {}
 
 /// Write-seek positions are bounded (memory, not logic: a cursor zero-fills up to the position)
-pub const WRITE_SEEK_BOUND: u64 = 3 << 20;
+pub const WRITE_SEEK_BOUND: u64 = 20 << 20;
 
 /// Apply a write script to a real handle and to a Cursor<Vec<u8>> model.
 /// `check_visible(model_bytes)` is called after every Flush (the handle is still open).
@@ -365,6 +368,47 @@ pub fn run_write_script(
                     (Err(_), Err(_)) => {}
                     (Ok(a), Err(_)) => return Err(format!("write handle seek({:?}) before the start succeeded with {}", sf, a)),
                     (Err(e), Ok(_)) => return Err(format!("write handle seek({:?}) failed: {}", sf, e)),
+                }
+                // one seek in four is followed by an excursion to the ends of the offset range and
+                // back: seeking allocates nothing, so the arithmetic near u64::MAX / i64::MAX can be
+                // compared with the cursor without writing there
+                if o.anchor >= 192 {
+                    let home = model.position();
+                    let k = (o.anchor % 8) as u64;
+                    let far = match o.delta as u8 % 6 {
+                        0 => SeekFrom::Start(u64::MAX - k),
+                        1 => SeekFrom::Current(i64::MAX),
+                        2 => SeekFrom::End(i64::MAX - k as i64),
+                        3 => SeekFrom::Current(i64::MIN),
+                        4 => SeekFrom::End(i64::MIN),
+                        _ => SeekFrom::Start(i64::MAX as u64 - k),
+                    };
+                    let second = match (o.delta as u8 / 6) % 4 {
+                        0 => SeekFrom::Current(8),
+                        1 => SeekFrom::Current(i64::MAX),
+                        2 => SeekFrom::End(i64::MAX),
+                        _ => SeekFrom::Current(-3),
+                    };
+                    for sf in [far, second] {
+                        let at_pos = model.position();
+                        let m = model.seek(sf);
+                        let r = handle.seek(sf);
+                        trace.push(format!("far seek({:?}) -> {:?} (model {:?})", sf, r.as_ref().map_err(|e| e.kind()), m.as_ref().map_err(|e| e.kind())));
+                        match (&r, &m) {
+                            (Ok(a), Ok(b)) if a == b => interesting = true,
+                            (Ok(a), Ok(b)) => return Err(format!("write handle seek({:?}) from position {} returned {} but a cursor returns {}", sf, at_pos, a, b)),
+                            (Err(_), Err(_)) => {}
+                            (Ok(a), Err(_)) => return Err(format!("write handle seek({:?}) from position {} succeeded with {} where the target is negative or overflows (a cursor fails and stays)", sf, at_pos, a)),
+                            // offsets beyond what the host's files support may be refused by an OS-backed handle
+                            (Err(_), Ok(b)) if *b > (1u64 << 40) => model.set_position(at_pos),
+                            (Err(e), Ok(b)) => return Err(format!("write handle seek({:?}) from position {} failed ({}) but a cursor moves to {}", sf, at_pos, e, b)),
+                        }
+                    }
+                    model.set_position(home);
+                    match handle.seek(SeekFrom::Start(home)) {
+                        Ok(p) if p == home => {}
+                        other => return Err(format!("write handle seek(Start({})) after an excursion to the end of the offset range gives {:?}", home, other.map_err(|e| e.kind()))),
+                    }
                 }
             }
             WOp::Flush => {
